@@ -57,6 +57,7 @@ type Exec struct {
 	MapModel           bool   // maps made by the analysed code with constant integer keys are tracked (update, lookup, range, len)
 	SortModel          bool   // abs_sort.go: interpret sort.Sort/Stable/Slice/SliceStable on small slices
 	ReaderFailSentinel string // the error a failing source returns (default: an error of its own); e.g. "io.ErrUnexpectedEOF"
+	ReaderFrag         bool   // every Read of a modelled bytes.Reader delivers an arbitrary positive count (C09.4)
 	ReaderMayFail      bool   // every Read of a modelled bytes.Reader may instead fail with a sticky non-EOF error (C10.6)
 	Stats              struct{ Instrs, Calls, Forks, Widen, CopyLoops int }
 }
@@ -143,7 +144,7 @@ type callRes struct {
 
 func NewExec(p *Program) *Exec {
 	return &Exec{P: p, syms: NewSymTab(), objType: map[int]types.Type{}, constObj: map[int]bool{}, globals: map[*ssa.Global]int{},
-		loops: map[*ssa.Function]map[*ssa.BasicBlock]*loopInfo{}, MaxPaths: 20000, MaxInstrs: 5000000, MaxTime: 300 * time.Second, MaxDepth: 24, Unroll: 40, Unsupported: map[string]int{}, NoInline: map[*ssa.Function]bool{}}
+		loops: map[*ssa.Function]map[*ssa.BasicBlock]*loopInfo{}, MaxPaths: 20000, MaxInstrs: 5000000, MaxTime: 120 * time.Second, MaxDepth: 24, Unroll: 40, Unsupported: map[string]int{}, NoInline: map[*ssa.Function]bool{}}
 }
 
 func (ex *Exec) NewState() *State {
@@ -519,6 +520,9 @@ func (ex *Exec) enter(fr *Frame, st *State, b *ssa.BasicBlock, prev *ssa.BasicBl
 // forkProfile (debugging, ABSDEBUG): where the partitions split.
 var forkProfile map[string]int
 
+// checkDeadline: wall-clock limit of the running check (set by runCheck; zero = none).
+var checkDeadline time.Time
+
 func firstNonPhi(b *ssa.BasicBlock) int {
 	for i, in := range b.Instrs {
 		if _, ok := in.(*ssa.Phi); !ok {
@@ -726,10 +730,18 @@ func (ex *Exec) execFrom(fr *Frame, st *State, b *ssa.BasicBlock, idx int, prev 
 		in := b.Instrs[i]
 		ex.Stats.Instrs++
 		if ex.Stats.Instrs&1023 == 0 && ex.MaxTime > 0 {
+			now := time.Now()
 			if ex.started.IsZero() {
-				ex.started = time.Now()
-			} else if time.Since(ex.started) > ex.MaxTime {
+				ex.started = now
+			} else if now.Sub(ex.started) > ex.MaxTime {
 				ex.Budget = true
+				return nil
+			}
+			if !checkDeadline.IsZero() && now.After(checkDeadline) {
+				// the whole check is over its time budget: every further run gives up at once (undecided), so that the
+				// check ends with a verdict and evidence instead of running on
+				ex.Budget = true
+				ex.unsupported("time budget of the check exceeded")
 				return nil
 			}
 		}
